@@ -116,6 +116,24 @@ Fixpoint closed (v : val) {struct v} : bool :=
   | VUnion vs => forallb closed vs
   end.
 
+(* well-shaped nodes (what the encoder produces) and no CallableValue (whose substitution
+   returns the signature itself when nothing changed up to ==) *)
+Fixpoint elim_ok (v : val) : bool :=
+  match v with
+  | VLeaf _ => true
+  | VNode (TCallable _ _) _ => false
+  | VNode t k =>
+      match t, k with
+      | TSeq _ _, [] => false
+      | TDictInc _ _, ([] | [_]) => false
+      | TTypedDict _ _ _, [] => false
+      | TSubclass _, ([] | _ :: _ :: _) => false
+      | _, _ => true
+      end && forallb elim_ok k
+  | VUnion k => forallb elim_ok k
+  end.
+
+
 (* canonical n v: every derived argument is what the constructor computes and
    every union is a fixed point of unite_values (true of values the checker
    builds through the constructors / unite_values) *)
